@@ -1269,6 +1269,8 @@ def main(outfile):
     py2lean_blkctor.main_blkctor(os.path.join(os.path.dirname(outfile), 'TranslatedBlkCtor.lean'), write_if_changed)
     import py2lean_handlers                                      # separate module: SBlock.__init_subclass__, the handler tables (C11)
     py2lean_handlers.main_handlers(os.path.join(os.path.dirname(outfile), 'TranslatedHandlers.lean'), sys.modules[__name__])
+    import py2lean_evtuple                                       # separate module: event_tuple, efilter_tuple (C02)
+    py2lean_evtuple.main_evtuple(os.path.join(os.path.dirname(outfile), 'TranslatedEvTuple.lean'), write_if_changed)
 
 if __name__ == '__main__':
     main(sys.argv[1])
